@@ -7,7 +7,7 @@
    That the typed lists are what the formatted file says is C15 (coherence). *)
 From Coq Require Import Sorted Permutation.
 From Verif.Base Require Import Bytes.
-From Verif.Modfile Require Import EditModel EditOps EditSpec EditProofsTyped EditProofsSort EditProofsExact EditProofsSetRequire EditProofsLines.
+From Verif.Modfile Require Import EditModel EditOps EditSpec EditProofsTyped EditProofsSort EditProofsExact EditProofsSetRequire EditProofsLines EditProofs2Blocks EditProofs2Sri EditProofs2Inv EditProofs2Separate EditProofs2Order EditProofs2Sorted.
 
 (* SetRequire: whatever the file held before (duplicates, cleared entries, any block
    structure), if the call does not panic the requirements are exactly the requested
@@ -88,20 +88,127 @@ Theorem C16_cleanup_keeps_directives : forall f, abs (cleanup f) = abs f.
 Proof. exact cleanup_abs. Qed.
 Print Assumptions C16_cleanup_keeps_directives.
 
+(* ---- the same at line level for SetRequireSeparateIndirect ([BlockIdsOk]: block identities are
+   distinct, Props/C15.v) *)
+Theorem C16_set_require_separate_lines_exact : forall f l f',
+  distinct_paths (map req_path l) = true -> Coherent f -> BlockIdsOk (fsyn f) -> RequireSettable f ->
+  set_require_separate_indirect f l = Some f' ->
+  Permutation (map snd (filter is_require_view (tree_view (fsyn (cleanup f'))))) (map render_req l).
+Proof. exact set_require_separate_lines_exact. Qed.
+Print Assumptions C16_set_require_separate_lines_exact.
+
+(* ---- separate_indirect_blocks.  [one_flat_uncommented s] is the model's oneFlatUncommentedBlock:
+   the scan of SetRequireSeparateIndirect counts exactly one require line or block, and that
+   statement has no comments of its own other than "// indirect" ([has_comments]).  Then, after
+   the call and Cleanup, every require block of the file is direct-only or indirect-only: no
+   block holds both a direct and an indirect requirement (so when both kinds are requested they
+   are in different statements; together with C16_set_require_separate_lines_exact the direct
+   ones and the indirect ones are all there). *)
+Theorem C16_separate_indirect_blocks : forall f l f',
+  distinct_paths (map req_path l) = true -> Coherent f -> BlockIdsOk (fsyn f) -> RequireSettable f ->
+  one_flat_uncommented (fsyn f) = true ->
+  set_require_separate_indirect f l = Some f' ->
+  forall b, In (SBlock b) (stmts (fsyn (cleanup f'))) -> hd_is (hb_tok b) v_require = true ->
+    (forall i, In i (hb_lines b) -> is_indirect (sget (fsyn (cleanup f')) i) = false) \/
+    (forall i, In i (hb_lines b) -> is_indirect (sget (fsyn (cleanup f')) i) = true).
+Proof. exact separate_indirect_blocks. Qed.
+Print Assumptions C16_separate_indirect_blocks.
+
+(* what the precondition says about the statement list: exactly one statement is a require
+   line or require block ([is_req_stmt]), and it carries no comments of its own (comments on
+   the lines INSIDE a block do not count, as in the code) *)
+Theorem C16_one_flat_uncommented_spec : forall s,
+  one_flat_uncommented s = true ->
+  exists pre st post, stmts s = pre ++ st :: post /\ is_req_stmt s st = true /\
+    has_comments (stmt_coms s st) = false /\
+    filter (is_req_stmt s) pre = [] /\ filter (is_req_stmt s) post = [].
+Proof. exact one_flat_uncommented_spec. Qed.
+Print Assumptions C16_one_flat_uncommented_spec.
+
+(* ---- the comparators are strict weak orders: asymmetric, transitive, and "a is not after b" is
+   transitive (hence incomparability is transitive).  lineLess and lineRetractLess on all token
+   lists; lineExcludeLess on the lines an exclude block holds ([exclude_line]: a removed line,
+   no token, or "path version", two tokens) — uses the SemVer comparison laws of C04. *)
+Theorem C16_comparators_strict_weak :
+  (forall a b c,
+     (toks_less a b = true -> toks_less b a = false) /\
+     (toks_less a b = true -> toks_less b c = true -> toks_less a c = true) /\
+     (toks_less b a = false -> toks_less c b = false -> toks_less c a = false)) /\
+  (forall a b c,
+     (retract_less a b = true -> retract_less b a = false) /\
+     (retract_less a b = true -> retract_less b c = true -> retract_less a c = true) /\
+     (retract_less b a = false -> retract_less c b = false -> retract_less c a = false)) /\
+  (forall a b c, (a = [] \/ length a = 2%nat) -> (b = [] \/ length b = 2%nat) -> (c = [] \/ length c = 2%nat) ->
+     (exclude_less a b = true -> exclude_less b a = false) /\
+     (exclude_less a b = true -> exclude_less b c = true -> exclude_less a c = true) /\
+     (exclude_less b a = false -> exclude_less c b = false -> exclude_less c a = false)).
+Proof.
+  split; [|split].
+  - intros a b c. destruct toks_less_swo as [A Bq C]. repeat split; [apply A | apply Bq | apply C]; exact I.
+  - intros a b c. destruct retract_less_swo as [A Bq C]. repeat split; [apply A | apply Bq | apply C]; exact I.
+  - intros a b c Da Db Dc. destruct exclude_less_swo as [A Bq C]. repeat split; [apply A | apply Bq | apply C]; assumption.
+Qed.
+Print Assumptions C16_comparators_strict_weak.
+
+(* the restriction is needed: on token lists of other lengths lineExcludeLess falls back to
+   lineLess and the mixture is not transitive *)
+Theorem C16_exclude_less_not_transitive_in_general :
+  exists a b c, exclude_less a b = true /\ exclude_less b c = true /\ exclude_less a c = false.
+Proof. exact exclude_less_not_transitive_in_general. Qed.
+Print Assumptions C16_exclude_less_not_transitive_in_general.
+
+(* ... and in a coherent file (C15) the lines of a block are in the domain of its comparator
+   ([block_dom f b] = the two-token-or-removed shape when lineExcludeLess is used, no
+   restriction otherwise) *)
+Theorem C16_block_lines_in_comparator_domain : forall f b,
+  Coherent f -> In (SBlock b) (stmts (fsyn f)) -> Forall (block_dom f b) (block_toks (fsyn f) b).
+Proof. exact block_toks_dom. Qed.
+Print Assumptions C16_block_lines_in_comparator_domain.
+
+(* ---- blocks_stay_sorted_through_cleanup *)
+Theorem C16_blocks_stay_sorted_through_cleanup : forall f,
+  Coherent f ->
+  (forall b, In (SBlock b) (stmts (fsyn f)) ->
+     Sorted (fun a c => block_less f b c a = false) (block_toks (fsyn f) b)) ->
+  forall b', In (SBlock b') (stmts (fsyn (cleanup f))) ->
+  Sorted (fun a c => block_less (cleanup f) b' c a = false) (block_toks (fsyn (cleanup f)) b').
+Proof. exact blocks_stay_sorted_through_cleanup. Qed.
+Print Assumptions C16_blocks_stay_sorted_through_cleanup.
+
+Theorem C16_blocks_sorted_after_cleanup : forall f b,
+  Coherent f ->
+  In (SBlock b) (stmts (fsyn (cleanup (sort_blocks f)))) ->
+  Sorted (fun a c => block_less f b c a = false) (block_toks (fsyn (cleanup (sort_blocks f))) b).
+Proof. exact blocks_sorted_after_cleanup. Qed.
+Print Assumptions C16_blocks_sorted_after_cleanup.
+
+(* ---- SortBlocks is determined.  The model sorts by stable insertion, Go calls sort.SliceStable.
+   The model's sort is stable ([before l x y]: x occurs before y in l), and ANY rearrangement of
+   the lines of a block that is sorted by the block's comparator and keeps the order of the
+   lines the comparator does not separate — everything sort.SliceStable's contract allows — is
+   the list the model computes (f: the file after removeDups; line identities are distinct). *)
+Theorem C16_model_sort_is_stable : forall (less : lid -> lid -> bool) l x y,
+  before l x y -> less x y = false -> less y x = false -> before (stable_sort less l) x y.
+Proof. intros less l x y. exact (stable_sort_stable less l x y). Qed.
+Print Assumptions C16_model_sort_is_stable.
+
+Theorem C16_sort_block_determined : forall f b lines',
+  Coherent f -> In (SBlock b) (stmts (fsyn f)) ->
+  let less := fun i j => block_less f b (hl_tok (hget (heap (fsyn f)) i)) (hl_tok (hget (heap (fsyn f)) j)) in
+  Permutation (hb_lines b) lines' ->
+  Sorted (fun i j => less j i = false) lines' ->
+  (forall x y, before (hb_lines b) x y -> less x y = false -> less y x = false -> before lines' x y) ->
+  lines' = hb_lines (sort_block (heap (fsyn f)) (block_less f b) b).
+Proof. exact sort_block_determined. Qed.
+Print Assumptions C16_sort_block_determined.
+
 (* NOT PROVED (validated by the correspondence run and the Go oracles only):
 
    kept_comments_survive — proved in the stronger per-line form as C08_comments_kept_*:
      SetRequire / SetRequireSeparateIndirect / SetUse may change the comments of the
      require / use lines only; which change setIndirect makes is [set_indirect_line].
 
-   separate_indirect_blocks : if the only require statement of a cleaned file is one
-     uncommented line or block, after set_require_separate_indirect and cleanup no block
-     holds both direct and indirect requirements.  (oracle "separate-indirect-two-blocks")
-
    need_order_irrelevant : the result of the bulk setters does not depend on the order in
      which the remaining [need] entries are added.  The model adds them in key order; the
      harness runs every sequence three times under Go's randomised map order and all
-     observables except the ORDER of File.Require / WorkFile.Use agree.
-
-   blocks stay sorted through Cleanup (needs transitivity of the comparators on the lines
-     of a block; asymmetry is proved above). *)
+     observables except the ORDER of File.Require / WorkFile.Use agree. *)
